@@ -4,6 +4,7 @@
    hold for any configuration equal to [std_cfg], and that equality is the decidable obligation below. *)
 From Coq Require Import List NArith Bool.
 From SudachiVerif Require Import Model.Numeric Model.NumericRef Proofs.NumericProofs Proofs.NumericRefProofs Proofs.NumericGrouped.
+From SudachiVerif Require Import Model.NumericCanon Proofs.NumericCanonProofs.
 Import ListNotations.
 
 (* the facts re-extracted from numeric_parser/{mod.rs,string_number.rs} (character table, unit predicates, separators,
@@ -117,3 +118,112 @@ Theorem C15_groups_ok_spec :
   (groups_ok g0 gs = true <-> (1 <= length g0 <= 3 /\ all_zero g0 = false /\ Forall (fun g => length g = 3) gs)).
 Proof. exact groups_ok_spec. Qed.
 Print Assumptions C15_groups_ok_spec.
+
+(* ---- canonical writings of a value denote that value ---------------------------------------------------------------- *)
+
+(* [dec16 n] is THE decimal rendering of 0 < n < 10^16: decimal digits, no leading zero, value n; and such a string is
+   unique *)
+Theorem C15_dec16_is_decimal_rendering :
+  forall n, (0 < n < 10 ^ 16)%N ->
+  to_N (dec16 n) = n /\ all_digits (dec16 n) /\ exists x t, dec16 n = x :: t /\ x <> 0%N.
+Proof. exact dec16_spec. Qed.
+Print Assumptions C15_dec16_is_decimal_rendering.
+
+Theorem C15_decimal_rendering_unique :
+  forall l1 l2 x1 t1 x2 t2, all_digits l1 -> all_digits l2 -> l1 = x1 :: t1 -> l2 = x2 :: t2 -> x1 <> 0%N -> x2 <> 0%N ->
+  to_N l1 = to_N l2 -> l1 = l2.
+Proof. exact decimal_rendering_unique. Qed.
+Print Assumptions C15_decimal_rendering_unique.
+
+(* For EVERY value 0 < n < 10^16 and every canonical writing of it (Model/NumericCanon.v: four groups 兆 / 億 / 万 / ones
+   taken from the decimal digits of n; zero groups skipped; each group, independently, either in Arabic digits without
+   leading zeros -- the mixed form 3億2000万 -- or with 千 百 十, zero digits skipped, the coefficient 1 of 千 / 百 / 十
+   written as 一 or omitted independently per unit, coefficient digits kanji or Arabic): the model parser accepts the
+   string and normalises it to the decimal rendering of n.  Proved by structural induction over the group decomposition
+   (one lemma per coefficient slot, per group writer, per large-unit step), not by enumeration. *)
+Theorem C15_canonical_value :
+  forall kinds sty n, (0 < n < 10 ^ 16)%N ->
+  parse gen_cfg (canon_of kinds sty n) = (true, 0%N, map digit_char (dec16 n)).
+Proof. exact (fun kinds sty n => canonical_value gen_cfg kinds sty n C15_facts_as_modelled). Qed.
+Print Assumptions C15_canonical_value.
+
+(* the two spellings named in the task: standard kanji (千百十 without 一, kanji digits) and Arabic digits + large units *)
+Theorem C15_kanji_value :
+  forall n, (0 < n < 10 ^ 16)%N -> parse gen_cfg (kanji_of n) = (true, 0%N, map digit_char (dec16 n)).
+Proof. exact (fun n => canonical_value gen_cfg _ _ n C15_facts_as_modelled). Qed.
+Print Assumptions C15_kanji_value.
+
+Theorem C15_mixed_value :
+  forall n, (0 < n < 10 ^ 16)%N -> parse gen_cfg (mixed_of n) = (true, 0%N, map digit_char (dec16 n)).
+Proof. exact (fun n => canonical_value gen_cfg _ _ n C15_facts_as_modelled). Qed.
+Print Assumptions C15_mixed_value.
+
+(* (c) thousands separators every three digits from the right: any digit string without leading zero and more than three
+   digits (any length), and as a statement about values 1000 <= n < 10^16 *)
+Theorem C15_grouped_canonical :
+  forall ds x t, all_digits ds -> ds = x :: t -> x <> 0%N -> 3 < length ds ->
+  parse gen_cfg (grouped_text ds) = (true, 0%N, map digit_char ds).
+Proof. exact (fun ds x t => grouped_canonical gen_cfg ds x t C15_facts_as_modelled). Qed.
+Print Assumptions C15_grouped_canonical.
+
+Theorem C15_grouped_value :
+  forall n, (1000 <= n < 10 ^ 16)%N -> parse gen_cfg (grouped_text (dec16 n)) = (true, 0%N, map digit_char (dec16 n)).
+Proof. exact (fun n => grouped_value gen_cfg n C15_facts_as_modelled). Qed.
+Print Assumptions C15_grouped_value.
+
+(* (d) decimal fraction in Arabic digits *)
+Theorem C15_fraction_canonical :
+  forall ip fp, all_digits ip -> all_digits fp -> ip <> [] -> fp <> [] ->
+  parse gen_cfg (fraction_text ip fp) = (true, 0%N, render (ip, fp)).
+Proof. exact (fun ip fp => fraction_canonical gen_cfg ip fp C15_facts_as_modelled). Qed.
+Print Assumptions C15_fraction_canonical.
+
+(* ---- large units out of order ---------------------------------------------------------------------------------------- *)
+
+(* both group writers are "group writers" in the sense of the theorems below; their room is at most 3 *)
+Theorem C15_group_writers :
+  (forall st, gw_ok (kanji_group st) groom) /\ gw_ok arabic_group (fun _ => 0) /\ (forall g, groom g <= 3).
+Proof. exact (conj kanji_group_ok (conj arabic_group_ok groom_le)). Qed.
+Print Assumptions C15_group_writers.
+
+(* <group 1> U1 <group 2> U2 for ANY two large units U1 = 10^E1, U2 = 10^E2 (descending, repeated or increasing) and any
+   two non-zero groups in any spelling: accepted iff the digits of group 2 plus E2 fit into the room of group 1 plus E1;
+   the normalised form is then group 1 x 10^E1 with group 2 x 10^E2 written into its zero positions; otherwise the
+   parser rejects with error state NONE (JoinNumericPlugin then leaves the tokens separate) *)
+Theorem C15_unit_order_behaviour :
+  forall w1 room1 w2 room2 g1 u1 E1 g2 u2 E2,
+  gw_ok w1 room1 -> gw_ok w2 room2 -> gdigits g1 -> gdigits g2 -> gz g1 = false -> gz g2 = false ->
+  large_unit u1 E1 -> large_unit u2 E2 ->
+  if two_unit_fits room1 g1 E1 g2 E2
+  then parse gen_cfg (two_unit_text w1 w2 g1 u1 g2 u2) = (true, 0%N, map digit_char (two_unit_digits g1 E1 g2 E2))
+  else fst (parse gen_cfg (two_unit_text w1 w2 g1 u1 g2 u2)) = (false, 0%N).
+Proof. exact (fun w1 room1 w2 room2 g1 u1 E1 g2 u2 E2 => unit_order gen_cfg w1 room1 w2 room2 g1 u1 E1 g2 u2 E2 C15_facts_as_modelled). Qed.
+Print Assumptions C15_unit_order_behaviour.
+
+(* an INCREASING large unit (億 after 万, 兆 after 億 / 万) is ALWAYS rejected *)
+Theorem C15_increasing_unit_rejected :
+  forall w1 room1 w2 room2 g1 u1 E1 g2 u2 E2,
+  gw_ok w1 room1 -> gw_ok w2 room2 -> gdigits g1 -> gdigits g2 -> gz g1 = false -> gz g2 = false ->
+  large_unit u1 E1 -> large_unit u2 E2 -> room1 g1 <= 3 -> E1 < E2 ->
+  fst (parse gen_cfg (two_unit_text w1 w2 g1 u1 g2 u2)) = (false, 0%N).
+Proof. exact (fun w1 room1 w2 room2 g1 u1 E1 g2 u2 E2 => increasing_unit_rejected_g gen_cfg w1 room1 w2 room2 g1 u1 E1 g2 u2 E2 C15_facts_as_modelled). Qed.
+Print Assumptions C15_increasing_unit_rejected.
+
+(* a REPEATED large unit is accepted exactly when group 2 has no more digits than the room below the last small unit of
+   group 1: never after a ones digit or an Arabic group (1万2万, 12万3万: rejected), but 百万3万, 千万5百万, 二十万5万 are
+   accepted ... *)
+Theorem C15_repeated_unit_iff :
+  forall w1 room1 w2 room2 g1 u E g2,
+  gw_ok w1 room1 -> gw_ok w2 room2 -> gdigits g1 -> gdigits g2 -> gz g1 = false -> gz g2 = false -> large_unit u E ->
+  fst (fst (parse gen_cfg (two_unit_text w1 w2 g1 u g2 u))) = Nat.leb (length (sdig g2)) (room1 g1).
+Proof. exact (fun w1 room1 w2 room2 g1 u E g2 => repeated_unit_iff_g gen_cfg w1 room1 w2 room2 g1 u E g2 C15_facts_as_modelled). Qed.
+Print Assumptions C15_repeated_unit_iff.
+
+(* ... and then the value is the SUM of the two parts: no digit of group 1 is overwritten.  So a string with units out of
+   order is never joined into a value other than the sum of its parts. *)
+Theorem C15_two_unit_value_is_sum :
+  forall room1 g1 E1 g2 E2,
+  (exists h, sdig g1 = h ++ repeat 0%N (room1 g1)) -> two_unit_fits room1 g1 E1 g2 E2 = true ->
+  to_N (two_unit_digits g1 E1 g2 E2) = (to_N (sdig g1 ++ repeat 0%N E1) + to_N (sdig g2 ++ repeat 0%N E2))%N.
+Proof. exact two_unit_value_is_sum. Qed.
+Print Assumptions C15_two_unit_value_is_sum.
